@@ -13,7 +13,7 @@ import itertools
 from typing import Any, Dict, List
 
 PROPERTY = "C16"
-MAPPED = ["linear:F_nobias", "linear:F_bias_pos", "linear:F_bias_kw", "linear:nn", "matmul:param", "gelu:F", "gelu:F_tanh",
+MAPPED = ["linear:F_nobias", "linear:F_bias_pos", "linear:F_bias_kw", "linear:F_weight_kw", "linear:nn", "matmul:param", "gelu:F", "gelu:F_tanh",
           "gelu:nn", "silu:F", "softmax:F", "softmax:F_pos", "softmax:nn", "dropout:F_p0", "dropout:F_eval", "dropout:F_eval_pos", "layer_norm:F",
           "layer_norm:F_affine", "layer_norm:nn", "conv1d:F", "sdpa:plain", "sdpa:causal_kw", "sdpa:mask_pos", "sdpa:mask_kw"]
 UNMAPPED = ["tanh", "relu", "mul_scalar", "reshape", "rotate_half", "gate_softmax"]
